@@ -110,3 +110,25 @@ func vHarness_C04_voidnames() {
 	keeps := refContainsName(c1.element.names, o) || c1.element.name == o
 	vAssert(keeps, "after the '>' of a start tag with a conditional name the non-void alternative is forgotten")
 }
+
+// J5: an action in an attribute whose element name is conditional is accepted only if the
+// reviewed policy gives both alternatives the same class (and lists both)
+func vHarness_C04_condnames() {
+	le, la := vParam("le"), vParam("la")
+	e1, e2 := vNondetString("e1", le), vNondetString("e2", le)
+	a := vNondetString("a", la)
+	c := vAttrContext(e1, a, "", delimDoubleQuote, "")
+	c.element.names = []string{e1, e2}
+	if vParam("swap") == 1 {
+		c.element.name = e2
+	}
+	_, err := sanitizerForContext(c)
+	if err != nil {
+		vReach("rejected")
+		return
+	}
+	vReach("accepted")
+	w1, w2 := refAttrClass(e1, a, ""), refAttrClass(e2, a, "")
+	vAssert(w1 != refClassreject && w2 != refClassreject, "an action is accepted although one alternative of a conditional element name is not listed for the attribute")
+	vAssert(w1 == w2, "an action is accepted although the alternatives of a conditional element name have different reviewed classes")
+}
